@@ -618,8 +618,18 @@ class ndarray:
     def any(self, axis=None): return any_(self, axis)
     def argmin(self): return argmin(self)
     def argmax(self): return argmax(self)
-    def min(self, axis=None): return min_(self, axis)
-    def max(self, axis=None): return max_(self, axis)
+    def min(self, axis=None, initial=None, keepdims=False): return min_(self, axis, initial=initial, keepdims=keepdims)
+    def max(self, axis=None, initial=None, keepdims=False): return max_(self, axis, initial=initial, keepdims=keepdims)
+    def cumsum(self, axis=None): return cumsum(self, axis)
+    def prod(self, axis=None): return prod(self, axis)
+    def nonzero(self): return nonzero(self)
+    def argsort(self): return argsort(self)
+    def round(self, decimals=0): raise ModelGap("ndarray.round")
+    def squeeze(self): return self.reshape(tuple(d for d in self.shape if d != 1))
+    def fill(self, v): self[...] = v
+    def dot(self, o): return matmul(self, o)
+    def repeat(self, n): return repeat(self, n)
+    def take(self, idx, axis=None): return self[idx] if axis in (None, 0) else self[:, idx]
     def var(self, axis=None): return var(self, axis)
     def std(self, axis=None): return std(self, axis)
 
@@ -1036,12 +1046,20 @@ def _minf(r, v):
     return ite(v < r, v, r)
 
 
-def max_(a, axis=None):
-    return _reduce(_as(a), axis, _maxf, None)
+def _ext(a, axis, f, initial, keepdims, name):
+    a = _as(a)
+    n = a.size if axis is None else a.shape[axis]
+    if n == 0 and initial is None:
+        raise ValueError("zero-size array to reduction operation %s which has no identity" % name)
+    return _reduce(a, axis, f, _unbox(initial) if initial is not None else None, keepdims=keepdims)
 
 
-def min_(a, axis=None):
-    return _reduce(_as(a), axis, _minf, None)
+def max_(a, axis=None, initial=None, keepdims=False):
+    return _ext(a, axis, _maxf, initial, keepdims, "maximum")
+
+
+def min_(a, axis=None, initial=None, keepdims=False):
+    return _ext(a, axis, _minf, initial, keepdims, "minimum")
 
 
 max = max_
@@ -1072,8 +1090,10 @@ def argmax(a):
     return _argext(a, lambda v, b: v > b)
 
 
-def cumsum(a):
+def cumsum(a, axis=None):
     a = _as(a)
+    if axis is not None and a.ndim > 1:
+        raise ModelGap("cumsum with axis on ndim>1")
     out, acc = [], None
     for v in a.flat:
         acc = _addv(acc, v)
@@ -1529,12 +1549,84 @@ def array_split(a, k):
     return out
 
 
-def split(a, k):
+def split(a, k, axis=0):
     a = _as(a)
+    if axis not in (0, -a.ndim):
+        if a.ndim == 2 and axis in (1, -1):
+            return [p.T for p in split(a.T, k, 0)]
+        raise ModelGap("split along axis %r" % (axis,))
+    if isinstance(k, (list, tuple, ndarray)):
+        cuts = [int(x) for x in (k.flat if isinstance(k, ndarray) else k)]
+        out, pos = [], 0
+        for c in cuts + [a.shape[0]]:
+            c = _bmin(_bmax(c, 0), a.shape[0])
+            out.append(a[pos:c] if c >= pos else a[pos:pos])
+            pos = _bmax(pos, c) if c >= pos else pos
+        return out
     k = int(k)
     if a.shape[0] % k:
         raise ValueError("array split does not result in an equal division")
     return array_split(a, k)
+
+
+def isclose(a, b, rtol=1e-05, atol=1e-08, equal_nan=False):
+    def one(x, y):
+        x, y = _unbox(x), _unbox(y)
+        if _isnan1(x) or _isnan1(y):
+            return bool(equal_nan and _isnan1(x) and _isnan1(y))
+        d = x - y
+        ad = ite(d < 0, -d, d) if is_sym(d) else abs(d)
+        ay = ite(y < 0, -y, y) if is_sym(y) else abs(y)
+        return ad <= atol + rtol * ay
+    if isinstance(a, ndarray) or isinstance(b, ndarray) or hasattr(a, "to_numpy") or hasattr(b, "to_numpy"):
+        return _ufunc2(_as(a) if not isinstance(a, (int, float)) else a, _as(b) if not isinstance(b, (int, float)) else b, one, "b")
+    return one(a, b)
+
+
+def allclose(a, b, rtol=1e-05, atol=1e-08):
+    return bool(all_(isclose(a, b, rtol, atol)))
+
+
+def flip(a, axis=None):
+    a = _as(a)
+    if a.ndim == 1:
+        return a[::-1]
+    raise ModelGap("flip of ndim>1")
+
+
+def tile(a, reps):
+    a = _as(a)
+    if a.ndim == 1 and isinstance(reps, int):
+        return concatenate([a] * reps) if reps > 0 else a[:0]
+    raise ModelGap("tile")
+
+
+def append(a, v):
+    return concatenate([_as(a).reshape(-1), _as(v).reshape(-1)])
+
+
+def searchsorted(a, v, side="left"):
+    a = _as(a)
+    def one(x):
+        c = 0
+        for y in a.flat:
+            c = c + ite((y < x) if side == "left" else (y <= x), 1, 0)
+        return c
+    if isinstance(v, ndarray):
+        return _ufunc1(v, one, "i8")
+    return _box(one(_unbox(v)))
+
+
+def bincount(a, minlength=0):
+    a = _as(a)
+    vals = [int(x) for x in a.flat]
+    n = _bmax([minlength] + [v + 1 for v in vals])
+    out = [0] * n
+    for v in vals:
+        if v < 0:
+            raise ValueError("'list' argument must have no negative elements")
+        out[v] += 1
+    return ndarray.fresh(out, (n,), "i8")
 
 
 # --------------------------------------------------------------------------- linear algebra
